@@ -52,3 +52,7 @@ impl std::future::Future for SchedPoint {
 pub(crate) fn sched_point() -> SchedPoint {
     SchedPoint { yielded: false }
 }
+
+/// `mod kalman` is private inside `algorithm`; re-export its probe so harness code can
+/// name it as `crate::algorithm::verif_probe::kalman_probe::<group>::…`.
+pub(crate) use super::kalman::verif_probe as kalman_probe;
